@@ -522,7 +522,20 @@ fn replay_probe(_v: &Value) -> Result<Outcome, String> {
 // long / large recordings on other sinks and at other alignments
 
 fn long_sink_cases(_t: Tier) -> Vec<ValidCase> {
-    crate::scenario::long_cases(false).into_iter().filter(|c| c.expand.as_ref().map(|e| e.nv + e.na <= 40_000).unwrap_or(true)).collect()
+    let mut v: Vec<ValidCase> = crate::scenario::long_cases(false).into_iter().filter(|c| c.expand.as_ref().map(|e| e.nv + e.na <= 40_000).unwrap_or(true)).collect();
+    // frames of exactly equal length (>= 4 KiB) but different NAL layouts (one slice / two slices): with the alignment run every
+    // frame also comes from one reused buffer, i.e. the same address and the same length with different content
+    for codec in [0u8, 1] {
+        let mut c = v[0].clone();
+        c.expand = None;
+        c.cfg.codec = codec;
+        c.cfg.audio = 0;
+        let extra = if codec == 1 { 5 } else { 4 };
+        c.video = (0..14u32).map(|i| VGene { ddts: 3000, cts: 0, key: false, size: if i % 2 == 1 { 5000 } else { 5000 - extra }, shape: if i % 2 == 1 { 0 } else { 16 }, jit: 0, big: 0 }).collect();
+        c.audio = vec![];
+        v.push(c);
+    }
+    v
 }
 
 fn eval_long_sinks(c: &ValidCase) -> Outcome {
@@ -556,6 +569,67 @@ fn eval_long_sinks(c: &ValidCase) -> Outcome {
     let r2 = run_history(&cfg, &l.ops);
     if r2.out != r.out || !same_returns(&r2.results, &r.results) {
         o.fail("same_bytes", "same_bytes.alignment.offset3", "different results when every frame starts at address = 3 (mod 8)");
+    }
+    o
+}
+
+// ------------------------------------------------------------------------------------------
+// nothing carried over from other muxers in the process: reference from a fresh child process
+
+fn process_cases(_t: Tier) -> Vec<crate::props::c07::InitCase> {
+    use crate::frag::Vp9Lite;
+    use crate::gen::{Av1Seq, ObuGene};
+    let base = |codec: u8, via_builder: bool| crate::props::c07::InitCase {
+        codec,
+        width: 1920,
+        height: 1080,
+        sps: vec![0x67, 0x64, 0x00, 0x28, 0xac, 0x2c, 0xa5, 0x01, 0xe0, 0x08, 0x9f, 0x97],
+        pps: vec![0x68, 0xee, 0x3c, 0xb0],
+        vps: vec![0x40, 0x01, 0x0c, 0x01, 0xff, 0xff, 0x01, 0x60, 0x00, 0x00, 0x03, 0x00, 0x90],
+        av1: Av1Seq::simple(),
+        av1_obu: ObuGene { typ: 1, ext: false, ext_byte: 0, has_size: true, leb_pad: 0, len: 0, fill: 0 },
+        vp9: Vp9Lite { width: 1920, height: 1080, profile: 0, bit_depth: 8, color_space: 1, transfer_function: 1, matrix_coefficients: 1, level: 40, full_range_flag: 0 },
+        via_builder,
+        stray: 0,
+    };
+    vec![base(3, true), base(3, false), base(0, true), base(1, false), base(2, true)]
+}
+
+fn eval_process(c: &crate::props::c07::InitCase) -> Outcome {
+    use crate::props::c07::{init_bytes, twins};
+    let mut o = Outcome::default();
+    o.nontrivial = true;
+    let exe = match std::env::current_exe() {
+        Ok(e) => e,
+        Err(e) => {
+            o.unconstrained.push(format!("no current_exe: {}", e));
+            return o;
+        }
+    };
+    // "pollute" the process with the base configuration, then ask for each single-field twin and compare with what a fresh
+    // process returns for that twin
+    let _ = init_bytes(c);
+    for t in twins(c) {
+        let here = init_bytes(&t);
+        let json = serde_json::to_string(&t).unwrap_or_default();
+        let out = std::process::Command::new(&exe).arg("frag-init").arg(&json).output();
+        o.sub_evals += 1;
+        match out {
+            Ok(out) if out.status.success() => {
+                let txt = String::from_utf8_lossy(&out.stdout).trim().to_string();
+                let there: Option<Vec<u8>> = if txt == "none" { None } else { Some((0..txt.len() / 2).filter_map(|i| u8::from_str_radix(&txt[2 * i..2 * i + 2], 16).ok()).collect()) };
+                if here != there {
+                    o.fail(
+                        "process_state",
+                        "process_state.init_segment",
+                        format!("the init segment of a configuration differs between this process (where a configuration with one other field value was used before) and a fresh process: {:?} vs {:?} bytes", here.map(|b| b.len()), there.map(|b| b.len())),
+                    );
+                    break;
+                }
+            }
+            Ok(out) => o.unconstrained.push(format!("child exited with {:?}", out.status.code())),
+            Err(e) => o.unconstrained.push(format!("cannot spawn the child: {}", e)),
+        }
     }
     o
 }
@@ -705,6 +779,12 @@ pub fn def() -> PropertyDef {
             Box::new(PSub { name: "equivalent_paths", quick: 8000, thorough: 250000, strat: path_strategy, eval: eval_paths }),
             Box::new(ESub { name: "send_generic", run: run_probe, replay: replay_probe }),
             Box::new(LSub { name: "long_recordings", cases: long_sink_cases, eval: eval_long_sinks, note: crate::scenario::LONG_NOTE }),
+            Box::new(LSub {
+                name: "process_state",
+                cases: process_cases,
+                eval: eval_process,
+                note: "fixed list: five fragmented configurations; after one was used, each single-field twin's init segment is compared with the one a fresh child process (verif frag-init) returns for it",
+            }),
             Box::new(LSub {
                 name: "wall_clock",
                 cases: clock_cases,
